@@ -700,4 +700,17 @@ theorem C09_children_answer_is_least : ∀ (as bs : List T) (acc : Subst) (fl : 
             · intro p hp σ f' hs
               exact hall p (by simp only [List.zip_cons_cons, List.mem_cons]; exact Or.inr hp) σ f' hs
 
+/-- "mismatching arity is never glossed over" at the default rule: child lists of different lengths never match, whatever the
+    accumulated substitution (tuples, generic-argument lists, fn-pointer inputs, bound lists … all go through `supL`) -/
+theorem C09_arity_mismatch_never_matches (as bs : List T) (acc : Subst) (fl : Bool) (hne : as.length ≠ bs.length) :
+    ∀ ρ l, supL as bs acc fl ≠ .yes ρ l :=
+  fun ρ l h => hne (C09_children_answer_is_least as bs acc fl ρ l h).1
+
+/-- and a child that does not match (or panics) makes the whole node not match: no child is skipped -/
+theorem C09_failing_child_fails_node (as bs : List T) (acc : Subst) (fl : Bool) (p : T × T) (hp : p ∈ as.zip bs)
+    (hfail : ∀ σ f, supS p.1 (stripTop p.2) ≠ .yes σ f) : ∀ ρ l, supL as bs acc fl ≠ .yes ρ l := by
+  intro ρ l h
+  obtain ⟨σ, f, hs, _⟩ := (C09_children_answer_is_least as bs acc fl ρ l h).2.2.1 p hp
+  exact hfail σ f hs
+
 end DI
